@@ -505,8 +505,18 @@ where
 	let mut accidental_spend_outs = vec![];
 	let mut locked_outs = vec![];
 
+	// every path found on chain counts towards its account's restored child index, whether or
+	// not the wallet already has the record (a scan that was interrupted restores it on the next run)
+	let mut found_parents: HashMap<Identifier, u32> = HashMap::new();
+
 	// check all definitive outputs exist in the wallet outputs
 	for deffo in chain_outs.into_iter() {
+		let max_child = found_parents
+			.entry(deffo.key_id.parent_path())
+			.or_insert(deffo.n_child);
+		if deffo.n_child > *max_child {
+			*max_child = deffo.n_child;
+		}
 		let matched_out = wallet_outputs.iter().find(|wo| wo.commit == deffo.commit);
 		match matched_out {
 			Some(s) => {
@@ -540,8 +550,6 @@ where
 		batch.save(o)?;
 		batch.commit()?;
 	}
-
-	let mut found_parents: HashMap<Identifier, u32> = HashMap::new();
 
 	// Restore missing outputs, adding transaction for it back to the log
 	for m in missing_outs.into_iter() {
